@@ -86,11 +86,11 @@ Qed.
 (** the slot is released (the job is reported finished) only when no stage goroutine of the job is left *)
 Lemma sched_return_no_runs s id s' r :
   step s (EvSchedReturn id) = Some (s', r) →
-  ∃ j sc, get_job s id = Some j ∧ j_sched j = Some sc ∧ sc_entry sc = [] ∧ sc_running sc = [] ∧ sc_phase sc = PExited.
+  ∃ j sc, get_job s id = Some j ∧ j_sched j = Some sc ∧ sc_entry sc = [] ∧ sc_running sc = [] ∧ sc_ending sc = [] ∧ sc_phase sc = PExited.
 Proof.
   unfold step. simpl. destruct (do_sched_return (clear_req s) id) as [s1|] eqn:H; [|done]. intros _.
   apply with_sched_live in H as (j & sc & Hj & Hsc & H). exists j, sc.
-  destruct (sc_phase sc); try done. destruct (sc_entry sc); try done. destruct (sc_running sc); try done.
+  destruct (sc_phase sc); try done. destruct (sc_entry sc); try done. destruct (sc_running sc); try done. destruct (sc_ending sc); try done.
 Qed.
 
 (** ** C03 / C05 / C06: wait lists *)
@@ -253,10 +253,7 @@ Proof.
   destruct (mem n (sc_entry sc)); [|done]. rewrite Hctx. simpl. intros [= <- <-].
   exists []. split; [|intros o Ho; by apply elem_of_nil in Ho].
   (* stage_end only updates jobs *)
-  unfold stage_end. change (get_job (log (clear_req s) (ORunRefused id n)) id) with (get_job s id). rewrite Hj, Hsc.
-  destruct (match find_task j n with Some t => td_allow (jt_def t) | None => false end); simpl.
-  - unfold handle_stage_change. repeat (destruct (find_job _ _) as [?|]; simpl; try done; repeat (destruct (find_task _ _); simpl; try done)).
-  - unfold handle_stage_change. repeat (destruct (find_job _ _) as [?|]; simpl; try done; repeat (destruct (find_task _ _); simpl; try done)).
+  unfold stage_end. change (get_job (log (clear_req s) (ORunRefused id n)) id) with (get_job s id). rewrite Hj, Hsc. done.
 Qed.
 
 (** ** C05: the decision table, stated on what the API reports *)
